@@ -1,46 +1,4 @@
-(** The property theorems.  Nothing else lives here: each is closed by
-    [exact <lemma>] and followed by [Print Assumptions]. *)
-From stdpp Require Import list list_numbers.
-From Coq Require Import ZArith.
-From HV Require Import Ring RingProofs.
-
-(** * C14 — RingBuffer is an unbounded FIFO queue (sequential semantics; the
-      interleaving part is RingConc) *)
-
-(* Every operation sequence on a ring of any initial capacity >= 1 returns
-   exactly what the list queue returns: elements come out once, in push
-   order, however often the ring grows and wraps. *)
-Theorem C14_ring_refines_fifo :
-  forall (T : Type) (dflt : T) (size : nat) (ops : list (op T)),
-    1 <= size -> run_ring dflt size ops = run_fifo ops.
-Proof. exact @ring_refines_fifo. Qed.
-Print Assumptions C14_ring_refines_fifo.
-
-(* no reachable state can make an index leave the slice *)
-Theorem C14_no_out_of_bounds :
-  forall (T : Type) (dflt : T) (size : nat) (ops : list (op T)) (o : op T),
-    1 <= size ->
-    op_in_bounds (fold_left (fun r o => (step_ring dflt r o).1) ops (new dflt size)) o.
-Proof. intros T dflt size ops o H. apply ring_no_oob. exact (reach_wf dflt size ops H). Qed.
-Print Assumptions C14_no_out_of_bounds.
-
-(* Len = pushes - popped elements (as an equation over nat: never negative) *)
-Theorem C14_len_is_pushes_minus_popped :
-  forall (T : Type) (ops : list (op T)),
-    pushes ops = popped (run_fifo ops) + length (fold_left (fun q o => (step_fifo q o).1) ops []).
-Proof. intros T ops. exact (fifo_len_count [] ops). Qed.
-Print Assumptions C14_len_is_pushes_minus_popped.
-
-(* Pop / PopN report false exactly when the queue is empty *)
-Theorem C14_pop_false_iff_empty :
-  forall (T : Type) (q : list T) (n : nat),
-    ((step_fifo q Pop).2 = RPop None <-> q = []) /\ ((step_fifo q (PopN n)).2 = RPopN None <-> q = []).
-Proof. exact @fifo_false_iff_empty. Qed.
-Print Assumptions C14_pop_false_iff_empty.
-
-(* PopN(n) returns the first min(n, Len) elements and leaves the rest *)
-Theorem C14_popN_first_min_n_len :
-  forall (T : Type) (q : list T) (n : nat), q <> [] ->
-    step_fifo q (PopN n) = (drop (n `min` length q) q, RPopN (Some (take (n `min` length q) q))).
-Proof. exact @fifo_popN_prefix. Qed.
-Print Assumptions C14_popN_first_min_n_len.
+(** All property theorems.  The theorems themselves are in the Props*.v files,
+    one per model layer, which contain nothing but [Theorem … exact …] and
+    [Print Assumptions]. *)
+From HV Require Export PropsRing.
